@@ -226,7 +226,7 @@ fn render(o: &Obj, n: usize) -> Result<(String, Box<dyn Fn(usize) -> bool>, &'st
     })
 }
 
-fn run(c: &Case) -> Verdict {
+pub fn run(c: &Case) -> Verdict {
     let (text, value, kind) = match guard(|| render(&c.a, c.n)) {
         Ok(Ok(x)) => x,
         Ok(Err(e)) => return fail("harness", e),
@@ -380,7 +380,7 @@ pub fn def() -> PropDef {
             name: "display",
             rule: "see property rule",
             strategy,
-            cases: (30_000, 2_000_000),
+            cases: (300_000, 4_000_000),
             exhaustive: Some(enumerate),
             exhaustive_note: "all cubes/ecubes n<=4; all Sop/Esop/Soes with <=3 terms over n<=2 and <=2 (quick) / <=3 (thorough) terms over n=3",
             run,
